@@ -23,6 +23,10 @@ package grpcservers
 //@   loop 0 invariant -1 <= rangeindex && rangeindex < len(in.Requests) && unchanged(s.contentAddressableStorage)
 //@   loop 0 invariant response != nil && len(response.Responses) == rangeindex + 1
 //@   loop 0 invariant baCalls(s.contentAddressableStorage) <= old(baCalls(s.contentAddressableStorage)) + rangeindex + 1
+//@   loop 0 invariant [every-entry-uploaded-or-rejected-as-malformed] baCalls(s.contentAddressableStorage) - old(baCalls(s.contentAddressableStorage))
+//@         + ndpFails - old(ndpFails) == rangeindex + 1
+//@   ensures [every-entry-uploaded-or-rejected-as-malformed] result1 == nil && len(in.Requests) > 0 ==>
+//@         baCalls(s.contentAddressableStorage) - old(baCalls(s.contentAddressableStorage)) + ndpFails - old(ndpFails) == len(in.Requests)
 
 //@ func (*contentAddressableStorageServer).BatchReadBlobs
 //@   requires s.contentAddressableStorage != nil && in != nil && s.maximumMessageSizeBytes >= 0
